@@ -1256,8 +1256,13 @@ func (r *Raft) election() {
 // sendRequestVoteToPeers sends a RequestVoteRPC to all nodes in the cluster,
 // excluding those that are non-voters.
 func (r *Raft) sendRequestVoteToPeers() {
-	// Handle the single node cluster case.
+	// Handle the single node cluster case. There is nobody to ask for a prevote,
+	// but the election must still take place in a new term: this node may not be
+	// the first leader of the current one.
 	if r.isSingleServerCluster() {
+		if r.state == PreCandidate {
+			r.becomeCandidate()
+		}
 		r.becomeLeader()
 		return
 	}
